@@ -267,7 +267,7 @@ package jsonschema
 //@   atline[C07] "nContains := 0" items07b uses anns,end7: st.rs.draft == 0 && !isnil(schema.ItemsArray) ==> new(anns) && isold(schema) && isold(schema.ItemsArray) && (anns.endIndex >= len(schema.ItemsArray) || anns.endIndex >= rvlen(instance))
 //@   atline[C01,C02,C07] "nContains := 0" items07c uses stacklen,anns,add7: st.rs.draft == 0 && !isnil(schema.ItemsArray) && schema.AdditionalItems != nil ==> new(anns) && isold(schema) && isold(schema.ItemsArray) && anns.allItems && (forall j int {rvindex(instance, j)} :: len(schema.ItemsArray) <= j && j < rvlen(instance) ==> vok(st, len(stk0) + 1, rvindex(instance, j), schema.AdditionalItems))
 //@   atline[C01,C02,C07] "nContains := 0" items07d uses stacklen,anns,items7: st.rs.draft == 0 && isnil(schema.ItemsArray) && schema.Items != nil ==> new(anns) && anns.allItems && (forall j int {rvindex(instance, j)} :: 0 <= j && j < rvlen(instance) ==> vok(st, len(stk0) + 1, rvindex(instance, j), schema.Items))
-//@   atline[C07] "validation-01#section-6.4" contains uses stacklen,anns,cont: schema.Contains != nil ==> new(anns) && newOrNil(anns.evaluatedIndexes) && (forall j int {rvindex(instance, j)} :: 0 <= j && j < rvlen(instance) && vok(st, len(stk0) + 1, rvindex(instance, j), schema.Contains) ==> anns.evaluatedIndexes != nil && has(anns.evaluatedIndexes, j) && anns.evaluatedIndexes[j])
+//@   atline[C07] "validation-01#section-6.4" contains uses stacklen,anns: schema.Contains != nil ==> isold(schema) && new(anns) && newOrNil(anns.evaluatedIndexes) && (forall j int {rvindex(instance, j)} :: 0 <= j && j < rvlen(instance) && vok(st, len(stk0) + 1, rvindex(instance, j), schema.Contains) ==> anns.evaluatedIndexes != nil && has(anns.evaluatedIndexes, j) && anns.evaluatedIndexes[j])
 //@   atline[C01] "// objects" cp5 uses samejv,shaped,p_items: okItems(schema, instance)
 //@   atline[C01] "if callerAnns != nil {" cp6 uses samejv,shaped,p_props: okProps(schema, instance)
 //@   atreturn[C01,C12] accepted uses samejv: result == nil && applies ==> jv(instance) == jv(inst0) && okType(schema, instance) && okConst(schema, instance) && okNum(schema, instance) && okStr(schema, instance) && okItems(schema, instance) && okProps(schema, instance)
@@ -332,7 +332,8 @@ package jsonschema
 //@     invariant[C01,C02,C07] items7 uses stacklen: 0 <= i && (forall j int {rvindex(instance, j)} :: 0 <= j && j < i ==> vok(st, len(stk0) + 1, rvindex(instance, j), schema.Items))
 //@     exit[C01,C02,C07] items7done uses stacklen,items7: i >= rvlen(instance) ==> (forall j int {rvindex(instance, j)} :: 0 <= j && j < rvlen(instance) ==> vok(st, len(stk0) + 1, rvindex(instance, j), schema.Items))
 //@   loop "range instance.Len()"
-//@     invariant[C07] cont uses stacklen,anns: new(anns) && newOrNil(anns.evaluatedIndexes) && (forall j int {rvindex(instance, j)} :: 0 <= j && j < $i && vok(st, len(stk0) + 1, rvindex(instance, j), schema.Contains) ==> anns.evaluatedIndexes != nil && has(anns.evaluatedIndexes, j) && anns.evaluatedIndexes[j])
+//@     invariant[C07] cont uses stacklen,anns: isold(schema) && new(anns) && newOrNil(anns.evaluatedIndexes) && (forall j int {rvindex(instance, j)} :: 0 <= j && j < $i && vok(st, len(stk0) + 1, rvindex(instance, j), schema.Contains) ==> anns.evaluatedIndexes != nil && has(anns.evaluatedIndexes, j) && anns.evaluatedIndexes[j])
+//@     exit[C07] contdone uses stacklen,anns,cont: isold(schema) && new(anns) && newOrNil(anns.evaluatedIndexes) && (forall j int {rvindex(instance, j)} :: 0 <= j && j < rvlen(instance) && vok(st, len(stk0) + 1, rvindex(instance, j), schema.Contains) ==> anns.evaluatedIndexes != nil && has(anns.evaluatedIndexes, j) && anns.evaluatedIndexes[j])
 //@   loop "range schema.AnyOf"
 //@     exit[C01,C07] visitall: $idx >= len(schema.AnyOf)
 //@   loop "range schema.OneOf"
